@@ -283,3 +283,238 @@ def replay_round(r, harness):
     ok, rounds, rejected, diag, liveness, st, o = lin_validate(tmp, workers=2)
     print("round re-validated:", "rejected" if rejected else "accepted")
     return 1 if rejected else 0
+
+# ---- C20: configuration validation at start-up, overrides, '-g' hashes, TLS transport ----
+REPOBIN_DIR = os.path.join(VERIF, "harness", "target", "repobin")
+def build_real_binary():
+    env = dict(os.environ); env["CARGO_NET_OFFLINE"] = "true"; env.pop("RUSTFLAGS", None)
+    p = subprocess.run(["cargo", "build", "--offline", "--features", "tls_rustls", "--manifest-path", "/repo/Cargo.toml", "--target-dir", REPOBIN_DIR],
+                       cwd="/repo", env=env, stdout=subprocess.PIPE, stderr=subprocess.STDOUT, text=True)
+    if p.returncode != 0: return None, p.stdout[-3000:]
+    return os.path.join(REPOBIN_DIR, "debug", "simple-irc-server"), ""
+
+CERT, KEY = "/repo/test_data/cert.crt", "/repo/test_data/cert_key.crt"
+def toml_of(case, port, hashes):
+    q = lambda s: json.dumps(s)
+    L = []
+    L.append("name = %s" % q("irc.verif.test" if case["name"] == "dot" else "nodotname"))
+    L += ['admin_info = "admin one"', 'info = "verif server"', 'listen = "127.0.0.1"', "port = %d" % port, 'network = "VerifNet"',
+          "ping_timeout = 3600", "pong_timeout = 3600", 'motd = "motd from file"', "dns_lookup = false", 'log_level = "ERROR"', "max_joins = 2"]
+    pw = {"valid": hashes["srvpass"], "notbase64": "not base64 !!", "wronglen": "QUJDREVGRw"}
+    if case["password"] != "absent": L.append("password = %s" % q(pw[case["password"]]))
+    if case["tlsfile"] == "both": L += ["[tls]", "cert_file = %s" % q(CERT), "cert_key_file = %s" % q(KEY)]
+    L += ["[default_user_modes]", "invisible = false", "oper = false", "local_oper = false", "registered = false", "wallops = true"]
+    if case["operator"] != "none":
+        L += ["[[operators]]", "name = %s" % q("bad.name" if case["operator"] == "badname" else "god"),
+              "password = %s" % q("not base64 !!" if case["operator"] == "badhash" else hashes["godpass"])]
+    if case["user"] != "none":
+        L += ["[[users]]", "name = %s" % q("bad.name" if case["user"] == "badname" else "reg1"), 'nick = "reg1"']
+        if case["user"] != "nopass":
+            L.append("password = %s" % q({"badhash": "not base64 !!", "shorthash": "QUJD"}.get(case["user"], hashes["userpass"])))
+    if case["channel"] != "none":
+        L += ["[[channels]]", "name = %s" % q("nochan" if case["channel"] == "badname" else "#pre"), 'topic = "configured topic"', "[channels.modes]",
+              'key = "sesame"', "moderated = false", "invite_only = false", "secret = false", "protected_topic = true", "no_external_messages = true"]
+    return "\n".join(L) + "\n"
+
+def args_of(case):
+    a = []
+    if case["cliname"] != "none": a += ["-n", "cli.verif.test" if case["cliname"] == "dot" else "clinodot"]
+    if case["clicert"] == "present": a += ["-C", CERT]
+    if case["clikey"] == "present": a += ["-K", KEY]
+    return a
+
+def run_config(prop, tier, seed, harness, workdir, T):
+    import random
+    out = {"tool_errors": [], "violations": [], "coverage": {}}
+    binp, err = build_real_binary()
+    if not binp:
+        out["tool_errors"].append("building the real binary failed: " + err); return out
+    rc, o, dt = run_tlc("ConfigValid.tla", "ConfigValid.cfg", workers=1, timeout=600)
+    cases = parse_tagged(o, "CASE")
+    if "Model checking completed. No error has been found." not in o or not cases:
+        out["tool_errors"].append("ConfigValid: " + o[-2000:]); return out
+    # the binary's own '-g' for the passwords used below
+    pws = ["srvpass", "userpass", "godpass", "x", "pässwörd with spaces", "A" * 200, "srvpasS", "srvpass "]
+    gin = os.path.join(workdir, "gen.in.ndjson"); gout = os.path.join(workdir, "gen.out.ndjson")
+    with open(gin, "w", encoding="utf-8") as f:
+        for i, p_ in enumerate(pws): f.write(json.dumps({"id": "g%d" % i, "genhash": p_}, ensure_ascii=False) + "\n")
+    p = subprocess.run([harness, "procs", gin, gout, "--bin", binp], stdout=subprocess.PIPE, stderr=subprocess.STDOUT, text=True)
+    hashes = {}
+    for l in open(gout, encoding="utf-8"):
+        r = json.loads(l); i = int(r["id"][1:])
+        so = r.get("hash_stdout", "")
+        if "Password Hash: " not in so: out["tool_errors"].append("-g printed no hash: " + json.dumps(r)[:300]); return out
+        hashes[pws[i]] = so.split("Password Hash: ", 1)[1].strip()
+    # selection: every single-field deviation from the valid baseline, plus a seeded sample of the product
+    base = next(c for c in cases if all(c["case"][k] == v for k, v in dict(name="dot", password="absent", user="none", operator="none", channel="none",
+                                                                         tlsfile="none", clicert="absent", clikey="absent", cliname="none").items()))
+    sel = {json.dumps(base["case"], sort_keys=True): base}
+    for c in cases:
+        diff = [k for k in c["case"] if c["case"][k] != base["case"][k]]
+        if len(diff) == 1: sel[json.dumps(c["case"], sort_keys=True)] = c
+    rnd = random.Random(seed)
+    nq = 30 if tier == "quick" else 350
+    valid_cases = [c for c in cases if c["valid"]]; invalid_cases = [c for c in cases if not c["valid"]]
+    for c in rnd.sample(valid_cases, min(nq, len(valid_cases))) + rnd.sample(invalid_cases, min(nq, len(invalid_cases))):
+        sel[json.dumps(c["case"], sort_keys=True)] = c
+    sel = list(sel.values())
+    tests = []
+    for i, c in enumerate(sel):
+        port = 29100 + i
+        cs = c["case"]
+        probe = {"nick": "probe", "user": "pu"}
+        if cs["password"] == "valid": probe["pass"] = ["srvpass"]
+        tests.append({"id": "cfg%d" % i, "toml": toml_of(cs, port, hashes), "args": ["-p", str(port)] + args_of(cs), "port": port,
+                      "tls": c["tls"], "probe": probe, "server_name": "cli.verif.test" if cs["cliname"] == "dot" else "irc.verif.test",
+                      "expect": c})
+    # password semantics: a hash printed by -g accepts exactly the password it was generated from
+    k = len(tests)
+    for j, (conf_pw, given, ok) in enumerate([("srvpass", "srvpass", True), ("srvpass", "srvpasS", False), ("srvpass", "srvpass ", False), ("srvpass", "srvpas", False),
+                                              ("x", "x", True), ("pässwörd with spaces", "pässwörd with spaces", True), ("pässwörd with spaces", "password with spaces", False),
+                                              ("A" * 200, "A" * 200, True), ("A" * 200, "A" * 199, False)]):
+        port = 29100 + k + j
+        cs = dict(base["case"])
+        t = toml_of(cs, port, hashes) .replace('network = "VerifNet"', 'network = "VerifNet"\npassword = %s' % json.dumps(hashes[conf_pw]))
+        tests.append({"id": "pw%d" % j, "toml": t, "args": ["-p", str(port)], "port": port, "tls": False, "server_name": "irc.verif.test",
+                      "probe": {"nick": "probe", "user": "pu", "pass": [":" + given]}, "expect_pw": ok})
+    # the documented example file itself (port, log file and TLS paths overridden on the command line)
+    port = 29100 + len(tests)
+    tests.append({"id": "example", "toml": open("/repo/config-example.toml", encoding="utf-8").read(), "port": port, "tls": True,
+                  "args": ["-p", str(port), "-C", CERT, "-K", KEY, "-L", os.path.join(workdir, "example.log")], "server_name": "irci.localhost",
+                  "probe": {"nick": "probe", "user": "pu", "pass": ["whatever"]}, "example": True})
+    inp = os.path.join(workdir, "procs.in.ndjson")
+    shards = 8
+    procs_ = []
+    for s_ in range(shards):
+        part = tests[s_::shards]
+        pi = "%s.%d" % (inp, s_); po = os.path.join(workdir, "procs.out.%d.ndjson" % s_)
+        with open(pi, "w", encoding="utf-8") as f:
+            for t in part: f.write(json.dumps({k_: v for k_, v in t.items() if k_ not in ("expect",)}, ensure_ascii=False) + "\n")
+        procs_.append((subprocess.Popen([harness, "procs", pi, po, "--bin", binp, "--dir", os.path.join(workdir, "procs%d" % s_)],
+                                        stdout=subprocess.PIPE, stderr=subprocess.STDOUT, text=True), po))
+    res = {}
+    for p_, po in procs_:
+        o_, _ = p_.communicate()
+        if p_.returncode != 0: out["tool_errors"].append("procs failed: " + o_[-1000:]); continue
+        for l in open(po, encoding="utf-8"):
+            r = json.loads(l); res[r["id"]] = r
+    def codes(r): return [m["c"] for m in r.get("welcome", [])]
+    def arg(r, code):
+        for m in r.get("welcome", []):
+            if m["c"] == code: return m["a"]
+        return None
+    nvalid = 0
+    for t in tests:
+        r = res.get(t["id"])
+        if r is None or "error" in r: out["tool_errors"].append("no result for %s: %s" % (t["id"], json.dumps(r)[:200])); continue
+        bad = []
+        if "expect" in t:
+            e = t["expect"]
+            if e["valid"]:
+                nvalid += 1
+                if r["exit"]: bad.append("exited with %r although the configuration is valid" % r["exit"])
+                elif not r["served"]: bad.append("does not serve a valid configuration")
+                else:
+                    a001 = arg(r, "001"); a004 = arg(r, "004"); a372 = arg(r, "372")
+                    want = "cli.verif.test" if t["expect"]["case"]["cliname"] == "dot" else "irc.verif.test"
+                    if not a001 or a001[0] != "VerifNet": bad.append("001 does not carry the configured network: %r" % a001)
+                    if not a004 or a004[0] != want: bad.append("004 names %r, effective name is %s" % (a004, want))
+                    if not a372 or a372[0] != "motd from file": bad.append("MOTD not the configured one: %r" % a372)
+                    if arg(r, "221") != ["+w"]: bad.append("default user modes not applied: %r" % arg(r, "221"))
+            else:
+                if r["served"]: bad.append("serves from an invalid configuration")
+                if not r["exit"] or r["exit"] == [0]: bad.append("invalid configuration not refused with an error exit (exit=%r)" % r["exit"])
+        elif "expect_pw" in t:
+            got = "001" in codes(r)
+            if got != t["expect_pw"]: bad.append("password %r against hash of another string: registered=%s expected %s" % (t["probe"]["pass"], got, t["expect_pw"]))
+            if not t["expect_pw"] and "464" not in codes(r): bad.append("wrong password not answered with 464")
+        elif t.get("example"):
+            if not r["served"]: bad.append("config-example.toml (with port/TLS/log overrides) does not start: %s" % r.get("stderr", "")[:200])
+            elif "464" not in codes(r): bad.append("example file's server password not enforced")
+        if bad:
+            out["violations"].append({"kind": "proc", "class": t["id"].rstrip("0123456789"), "owners": [prop], "tags": ["proc:" + b.split(":")[0][:60] for b in bad],
+                                      "cmd": {"verb": "START"}, "detail": {"why": bad, "case": t.get("expect", {}).get("case"), "args": t["args"], "toml": t["toml"][:1500],
+                                                                           "exit": r["exit"], "served": r["served"], "stderr": r.get("stderr", "")[:300]}})
+    # TLS changes the transport only: the same behaviours over TLS and in clear must be judged alike by the specification
+    tls_n = 0
+    try:
+        import pipeline
+        ok, cfg, edges, st2, o3 = pipeline.gen_edges("MC_Nick")
+        if ok and edges:
+            selE = pipeline.select_edges(edges, 1 if tier == "quick" else 4, seed, 0)
+            keys = {}
+            for mode in ("plain", "tls"):
+                c2 = dict(cfg); c2["tls"] = (mode == "tls")
+                bf = os.path.join(workdir, "tls-%s.beh.ndjson" % mode)
+                pipeline.write_behaviours(bf, "MC_Nick-" + mode, c2, selE)
+                recs = pipeline.replay(harness, bf, os.path.join(workdir, "tls-" + mode), shards=6)
+                mism, skipped, pi, n, errs = pipeline.validate(recs, parallel=6)
+                for e_ in errs: out["tool_errors"].append("TLS run validation error: " + e_[1][-800:])
+                keys[mode] = {(m["b"].split("-", 2)[-1], m["step"], tuple(sorted(m["tags"]))): m for m in mism}
+                tls_n += len(selE)
+            for k_, m in keys["tls"].items():
+                if k_ not in keys["plain"]:
+                    out["violations"].append({"kind": "edge", "class": "tls-only", "owners": [prop], "tags": ["tls:" + t for t in m["tags"]], "cmd": m["cmd"],
+                                              "missing": m.get("missing"), "extra": m.get("extra"), "detail": {"b": m["b"], "step": m["step"]}})
+        else:
+            out["tool_errors"].append("MC_Nick export for the TLS run failed")
+    except SystemExit:
+        out["tool_errors"].append("TLS replay failed")
+    out["coverage"] = {"special_traces": len(tests) + tls_n, "tls_behaviours": tls_n, "evaluations": len(tests) + tls_n, "distinct_nontrivial": len(tests), "config_cases_total": len(cases),
+                       "config_cases_run": len(sel), "config_cases_valid": nvalid,
+                       "config_rule": "ConfigValid.tla enumerates the product of field variants with the expected verdict; run: every single-field deviation from the valid "
+                                      "baseline plus a seeded sample; password strings through the binary's own -g; config-example.toml itself",
+                       "samples": [{"config_case": sel[1]["case"], "expected_valid": sel[1]["valid"]}]}
+    return out
+
+def replay_proc(r, harness):
+    print("start-up cases are re-executed by the check itself: bin/check C20"); return 2
+
+# ---- C05: the shape product in every session-state class, effect-based oracle ----
+def run_shapes(prop, tier, seed, harness, workdir, T):
+    import pipeline, random
+    out = {"tool_errors": [], "violations": [], "coverage": {}}
+    rc, o, dt = run_tlc("Shapes.tla", "Shapes_%s.cfg" % tier, workers=1, timeout=1200, heap="8g")
+    lines = parse_tagged(o, "LINE")
+    if "Model checking completed. No error has been found." not in o or not lines:
+        out["tool_errors"].append("Shapes: " + o[-2000:]); return out
+    A, B, C = "127.0.0.1", "127.0.0.2", "127.0.0.3"
+    def st(c, verb, *p): return {"c": c, "cmd": {"verb": verb, "p": [list(x) for x in p]}}
+    def reg(c, n, u): return [st(c, "!open"), st(c, "NICK", [n]), st(c, "USER", [u], ["Real"])]
+    by = reg(A, "alice", "u1") + reg(B, "bob", "u2") + [st(A, "JOIN", ["#two"]), st(B, "JOIN", ["#two"])]
+    classes = {
+        "fresh": by + [st(C, "!open")],
+        "halfreg": by + [st(C, "!open"), st(C, "NICK", ["carol"])],
+        "alone": by + reg(C, "carol", "u3"),
+        "member": by + reg(C, "carol", "u3") + [st(A, "JOIN", ["#one"]), st(C, "JOIN", ["#one"]), st(A, "MODE", ["#one"], ["+b", "*!*@*.very.long.host.example.org"])],
+        "founder": by + reg(C, "carol", "u3") + [st(C, "JOIN", ["#one"]), st(A, "JOIN", ["#one"]), st(C, "MODE", ["#one"], ["+h", "alice"])],
+        "oper": by + reg(C, "carol", "u3") + [st(C, "OPER", ["god"], ["godpass"]), st(C, "JOIN", ["#one"])],
+        "lastmember": by + reg(C, "carol", "u3") + [st(C, "JOIN", ["#one"]), st(C, "MODE", ["#one"], ["-o", "carol"])],
+    }
+    cfg = {"operators": [{"name": "god", "pass": "godpass"}], "max_joins": [20]}
+    probes = [st(A, "PRIVMSG", ["#two"], ["still: here"]), st(B, "PRIVMSG", ["alice"], ["me too"]), st(A, "ISON", ["carol", "bob"]), st(B, "LUSERS")]
+    chunk = 120
+    behs = []
+    rnd = random.Random(seed)
+    for cname, prefix in classes.items():
+        ls = [l for l in lines if not (l["verb"] == "QUIT") and not (cname == "oper" and l["verb"] in ("KILL", "DIE", "SQUIT"))]
+        rnd.shuffle(ls)
+        for k in range(0, len(ls), chunk):
+            steps = prefix + [st(C, "RAW", [l["line"]]) for l in ls[k:k + chunk]] + probes
+            behs.append({"id": "shapes-%s-%d" % (cname, k // chunk), "cfg": cfg, "steps": steps, "record_from": len(prefix) + 1})
+    bf = os.path.join(workdir, "shapes.beh.ndjson")
+    with open(bf, "w", encoding="utf-8") as f:
+        for b in behs: f.write(json.dumps(b, ensure_ascii=False) + "\n")
+    recs = pipeline.replay(harness, bf, os.path.join(workdir, "shapes"), shards=T.get("shards", 10))
+    mism, skipped, pi, n, errs = pipeline.validate(recs, parallel=T.get("shards", 10))
+    for e in errs: out["tool_errors"].append("trace validation error in %s:\n%s" % e)
+    for x in pi: out["tool_errors"].append("path issue in shapes prefix: " + json.dumps(x)[:300])
+    for m in mism:
+        m["kind"] = "seq"; m["behaviours"] = bf
+        if prop in m.get("owners", []): out["violations"].append(m)
+    out["coverage"] = {"special_traces": len(behs), "evaluations": n, "distinct_nontrivial": len(lines) * len(classes),
+                       "shape_lines": len(lines), "session_classes": list(classes.keys()), "raw_steps": n,
+                       "shape_rule": "Shapes.tla: every verb x arity 0..2 (+ trailing text) x parameter shape per position; each line sent in each of the session-state "
+                                     "classes; effect-based oracle (connection stays open and registered, nobody else closed, invariants hold, bystander probes validated)",
+                       "samples": [{"raw_line": lines[len(lines) // 3]}]}
+    return out
